@@ -220,6 +220,12 @@ func (g *userSchemaGen) value(t reflect.Type, depth int) reflect.Value {
 		if g.r.Intn(3) != 0 {
 			v.SetBytes(g.rb())
 		}
+	case t.Kind() == reflect.Array && t.Elem().Kind() == reflect.Uint8:
+		if g.r.Intn(4) != 0 { // a non-zero byte array (unsupported today; whatever is made of it, by value or by pointer, no panic)
+			for i := 0; i < v.Len(); i++ {
+				v.Index(i).SetUint(uint64(1 + g.r.Intn(200)))
+			}
+		}
 	case t.Kind() == reflect.Interface:
 		if g.r.Intn(5) != 0 {
 			v.Set(g.dynValue())
